@@ -145,7 +145,7 @@ func (c *ScriptConn) NumSent() int {
 // ---------------------------------------------------------------- frames for generators
 
 // Flags: subset of Q(REQ) P(RESP) L(REL) A(ACK) F(FIN) T(RTR).
-func ParseFlags(s string, f *tubes.VerifFrame) bool {
+func ParseFlags(s string, f *tubes.VerifTFrame) bool {
 	if s == "-" {
 		return true
 	}
@@ -172,14 +172,14 @@ func ParseFlags(s string, f *tubes.VerifFrame) bool {
 
 // Frame is frame.toBytes of hop-go for the given fields.
 func Frame(id byte, flags string, ackNo, frameNo uint32, data []byte) []byte {
-	f := tubes.VerifFrame{TubeID: id, AckNo: ackNo, FrameNo: frameNo, Data: data, DataLength: uint16(len(data))}
+	f := tubes.VerifTFrame{TubeID: id, AckNo: ackNo, FrameNo: frameNo, Data: data, DataLength: uint16(len(data))}
 	ParseFlags(flags, &f)
 	return tubes.VerifTubeFrameBytes(f)
 }
 
 // Init is initiateFrame.toBytes of hop-go (10 byte header, no data).
 func Init(id byte, flags string, tubeType byte) []byte {
-	f := tubes.VerifFrame{}
+	f := tubes.VerifTFrame{}
 	ParseFlags(flags, &f)
 	return tubes.VerifInitFrameBytes(id, tubes.TubeType(tubeType), 0, f)
 }
@@ -406,6 +406,15 @@ func Exec(in *bufio.Scanner, out *bufio.Writer) {
 			if b, ok := Unhex(f[1]); ok && len(b) <= 65535 {
 				if s.feed(b) {
 					res = "ok"
+					// An initiation frame starts the tube's initiate goroutine.  hop-go has a race
+					// here (a FIN processed before that goroutine runs leaves the tube without a
+					// running sender); the harness does not race with it: it waits for the goroutine.
+					if len(b) >= 2 && b[1]&3 != 0 {
+						dl := time.Now().Add(2 * time.Second)
+						for !s.mux.VerifInitSettled(b[1]&4 != 0, b[0]) && time.Now().Before(dl) {
+							time.Sleep(50 * time.Microsecond)
+						}
+					}
 				} else {
 					res = "blocked"
 				}
